@@ -28,6 +28,8 @@ func checkC02Srv(job *Job, res *Result) {
 		{"mp", "OBJECT", `{"type":"MultiPoint","coordinates":[[10,10],[-10,-10]]}`},
 		{"feat", "OBJECT", `{"type":"Feature","geometry":{"type":"Point","coordinates":[7,7]},"properties":{"a":1}}`},
 		{"empty", "OBJECT", gEmpty},
+		// rectangles reaching across the gap between two disjoint query boxes
+		w("span BOUNDS 4 4 7 7"), w("span2 BOUNDS 2 2 7 7"),
 		// points just inside a circle at its east / west extremes (the circle reaches further
 		// in longitude than the bounding box of its 64-gon, increasingly so towards the poles)
 		w("ce POINT 45 1.2718"), w("cw POINT 45 -1.2718"), w("cp POINT 79.6 25.5"), w("cq POINT 79.6 -25.5"), w("cn POINT 45.8992 0"), w("cs POINT 44.1008 0"),
@@ -41,6 +43,8 @@ func checkC02Srv(job *Job, res *Result) {
 		w("TILE 0 0 0"), w("TILE 1 1 1"), w("TILE 0 0 1"), w("TILE 512 512 10"), w("TILE 184 409 10"),
 		w("QUADKEY 0"), w("QUADKEY 3"), w("QUADKEY 1202"), w("QUADKEY 0231"),
 		w("HASH s0"), w("HASH 9m"), w("HASH s00000000000"), w("HASH 7zzzzzzzzzzz"), w("HASH kpbpbpbpbpbp"),
+		// boxes without a limit on one or all sides, and beyond the range of the index's 32-bit coordinates
+		w("BOUNDS -10 -inf 10 +inf"), w("BOUNDS -inf -inf +inf +inf"), w("BOUNDS -inf -1 +inf 1"), w("BOUNDS -1 -1 1 1e39"), w("BOUNDS -1e39 -1e39 8 8"),
 		w("GET areas box"), w("GET areas tri"), w("GET areas pt"), w("GET areas line"),
 		{"OBJECT", `{"type":"Polygon","coordinates":[[[-4,-4],[4,-4],[0,4],[-4,-4]]]}`}, {"OBJECT", `{"type":"Polygon","coordinates":[[[-0.5,-0.5],[0.5,-0.5],[0.5,0.5],[-0.5,0.5],[-0.5,-0.5]]]}`},
 		{"OBJECT", `{"type":"LineString","coordinates":[[-5,-5],[12,12]]}`}, {"OBJECT", `{"type":"Point","coordinates":[0,0]}`},
